@@ -262,15 +262,11 @@ macro_rules! pi_header_rt {
             kani::cover!(r.is_ok(), "accepted");
             if let Ok(h) = &r {
                 if $kf {
-                    kani::assume(h.key_size > 16);
-                } else {
-                    kani::assume(h.key_size <= 16);
+                    // after patch patch_index_header_key_size no accepted header carries a key size above 16
+                    assert!(h.key_size <= 16, "PatchIndexHeader::parse accepted key_size > 16 (build would slice the 16-byte key array out of range)");
                 }
                 kani::cover!(h.blocks.len() == 1, "one block descriptor");
-                let w = h.build(); // KF: panics for key_size > 16 (slices the 16-byte key array)
-                if $kf {
-                    assert!(w.len() <= N, "KF:patch_index_header_build_key_size build of an accepted header");
-                }
+                let w = h.build();
                 let canonical = (b[12] as u16 | (b[13] as u16) << 8) >= 1;
                 if canonical {
                     assert!(w.len() <= N, "rebuilt header longer than the bytes it was parsed from");
@@ -288,11 +284,11 @@ macro_rules! pi_header_rt {
 // @bounds input of concrete length N (name: n<N>), all bytes symbolic; accepted headers with key_size <= 16; inputs with extra-header length 0 are non-canonical (build always writes the key_size byte) and only required not to fail
 // @encodes cascette_formats::patch_index::header::PatchIndexHeader::parse, cascette_formats::patch_index::header::PatchIndexHeader::build
 // @catches extra-header length computed differently by build and parse, block table order, field endianness, key bytes dropped
-// UNVERIFIED(not run to completion within the time budget): pi_header_rt!(c08_patch_index_header_rt_n27, 27, false);
-// UNVERIFIED(not run to completion within the time budget): pi_header_rt!(c08_patch_index_header_rt_n43, 43, false);
+pi_header_rt!(c08_patch_index_header_rt_n27, 27, false);
+pi_header_rt!(c08_patch_index_header_rt_n43, 43, false);
 // @end
-// UNVERIFIED harness prop=C08 tier=quick timeout=900 role=patch-index-header-build-wide-key
-// @bounds 43 symbolic bytes, accepted headers whose key_size byte is 17..=255
+// @harness prop=C08 tier=quick timeout=900 role=patch-index-header-build-wide-key
+// @bounds 43 symbolic bytes (every accepted header is rebuilt)
 // @encodes cascette_formats::patch_index::header::PatchIndexHeader::parse, cascette_formats::patch_index::header::PatchIndexHeader::build
-// @catches KF: parse accepts key_size > 16 (copies min(16) bytes, skips key_size) but build slices key_data[..key_size] and panics
-// UNVERIFIED(not run to completion within the time budget): pi_header_rt!(c08_patch_index_header_build_wide_key, 43, true);
+// @catches regression of patch patch_index_header_key_size: parse accepting key_size > 16 (copies min(16) bytes, skips key_size) while build slices key_data[..key_size] and panics
+pi_header_rt!(c08_patch_index_header_build_wide_key, 43, true);
